@@ -18,7 +18,46 @@ sym_mods = common.sym_mods
 real_mods = common.real_mods
 
 
+def c_table_history(cfg):
+    """history of a module-level table builder (concrete integers, no symbolic input, so this is a fact check, not a solver
+    query): ciderpress.dft.sph_harm_coeff.get_deriv_ylm_coeff(lmax) after calls with other lmax values returns the same
+    C-contiguous (5, (lmax+1)^2) table as a freshly loaded module (the table is handed to C as a raw pointer with row stride nlm)"""
+    import importlib.util
+    import os
+    from .. import replaylibs
+    replaylibs.ensure()          # the module's imports load the compiled library
+    path = os.path.join(os.environ.get("VERIF_REPO", "/repo"), "ciderpress/dft/sph_harm_coeff.py")
+
+    def fresh():
+        spec = importlib.util.spec_from_file_location("_verif_shc_%d" % fresh.n, path)
+        fresh.n += 1
+        m = importlib.util.module_from_spec(spec)
+        spec.loader.exec_module(m)
+        return m
+    fresh.n = 0
+    recs = []
+    used = fresh()
+    order = cfg["order"]
+    for k, lmax in enumerate(order):
+        got = used.get_deriv_ylm_coeff(lmax)
+        ref = fresh().get_deriv_ylm_coeff(lmax)
+        nlm = (lmax + 1) ** 2
+        facts = {"shape": tuple(np.shape(got)) == (5, nlm), "c_contiguous_float64": bool(getattr(got, "flags", None) is not None and got.flags.c_contiguous and got.dtype == np.float64),
+                 "equals_fresh_module": tuple(np.shape(got)) == tuple(np.shape(ref)) and bool(np.array_equal(np.asarray(got), np.asarray(ref)))}
+        for nm, okk in facts.items():
+            recs.append(dict(kind="fact", name="%s/call%d_lmax%d_%s" % (cfg["task"], k, lmax, nm), path="", verdict="unsat" if okk else "sat", t=0.0, size=1, trivial=False,
+                             phase="executed", detail="call order %s" % (order,), model={}, model_float={}))
+    recs.append(dict(kind="reach", name=cfg["task"] + "/reach", path="", verdict="sat", t=0.0))
+    return dict(records=recs, paths=0, solver_time=0.0)
+
+
 def replay(task, rec):
+    if task.engine == "custom" and task.name.startswith("history/table"):
+        out = c_table_history(task.cfg)
+        for r in out["records"]:
+            if r["name"] == rec["name"]:
+                return dict(confirmed=r["verdict"] == "sat", detail="re-executed on the unmodified module: %s" % r.get("detail"))
+        return dict(confirmed=False, detail="not produced")
     if task.engine == "custom":
         from .. import xh
         return xh.replay(task, rec)
@@ -180,6 +219,41 @@ def h_history_plan(env, version):
         env.equal("spin1_potential_after_interleaving_%d" % k, a, b)
 
 
+def h_chunking_kernel_evaluator(env, n=3):
+    """KernelEvaluator evaluates its samples in internal chunks (dn = 2000): the result for every sample is independent of where the
+    chunk boundaries fall.  Symbolic run: the chunk size is scaled to 2 (loader.BLOCK_OVERRIDE) and n = 3 or 5 symbolic samples are
+    used; concrete replay: the unmodified code with its real chunk size on (n-1)*1000 + 1 samples (each symbolic sample repeated
+    1000 times, the last one once), reading back the first copy of each"""
+    xe, K = env.m.xc_evaluator, env.m.kernels
+    nf, nc = 2, 2
+    X = env.arr("X", (n, nf), lo="-4", hi="4")
+    Xc = env.arr("Xc", (nc, nf), lo="-4", hi="4")
+    al = env.arr("alpha", (nc,), lo="-4", hi="4")
+    kern = K.DiffRBF(length_scale=env.arr("l", (nf,), "pos", lo="1/8", hi="8"))
+    ev = xe.KernelEvaluator(kern, Xc.copy(), al.copy())
+    if env.sym:
+        from .. import loader
+        loader.BLOCK_OVERRIDE[2000] = 2
+        try:
+            ok, out = env.attempt("call_returns", lambda: ev(X.copy()))
+        finally:
+            loader.BLOCK_OVERRIDE.pop(2000, None)
+        pick = list(range(n))
+    else:
+        reps = [1000] * (n - 1) + [1]
+        Xbig = np.repeat(X, reps, axis=0)
+        ok, out = env.attempt("call_returns", lambda: ev(np.ascontiguousarray(Xbig)))
+        pick = [1000 * j for j in range(n)]
+    if not ok:
+        return
+    res, dres = out
+    for j in range(n):
+        r1, d1 = ev(X[j:j + 1].copy())
+        env.equal("sample%d_value_independent_of_chunking" % j, res[pick[j]], r1[0])
+        for f in range(nf):
+            env.equal("sample%d_gradient%d_independent_of_chunking" % (j, f), dres[pick[j], f], d1[0, f])
+
+
 def h_history_kernel(env, cls):
     """Subset/SpinSym kernels keep an internal _locked flag: a call that raises must not change later results"""
     K = env.m.kernels
@@ -222,6 +296,9 @@ def tasks(tier):
                         mods="numint", max_paths=4096))
     for cls in ("SubsetRBF", "SpinSymRBF"):
         out.append(Task("history/kernel/%s" % cls, h_history_kernel, dict(cls=cls), mods="kernels"))
+    for n in (3, 5):
+        out.append(Task("chunking/KernelEvaluator/n%d" % n, h_chunking_kernel_evaluator, dict(n=n), mods="kernels"))
+    out.append(Task("history/table/deriv_ylm_coeff", c_table_history, dict(order=(3, 1, 2, 1, 4, 0), task="history/table/deriv_ylm_coeff"), engine="custom"))
     out += c01_l5.c09_tasks(tier)
     from .. import xh
     out += xh.tasks_for("c09", tier)
